@@ -8,6 +8,11 @@ CLAIMED = {
     text='size_limit is proved for every sequence of public operations of the Lean model of LruDiskCache; the model is replayed step by step against the real LruDiskCache on random op sequences (0 disagreements required) and the property is monitored on the real object after every step. Index=disk and LRU-order are monitored, not yet theorems.',
     note='Trusted: Lean kernel, hand-written model Model/Lru.lean (tied by h_lru), harness generators. Known findings F-C07-a/b/c are listed in known_findings.json.',
     ref='DESIGN.md section 4 C07, Appendix A.3, B.13'),
+
+ 'C06': dict(technique='Lean 4 proof (one invariant preserved by every step of every thread in every interleaving, incl. crash+reopen) + differential correspondence (h_atomic vs modeld atomic) + read monitor on the real LruDiskCache',
+    text='get_complete and crash_safe are proved for all interleavings, any number of threads and steps, of the inode-level model of the two-phase store; the model is replayed against the real LruDiskCache (real descriptors kept open across later steps, crash = abandoned temp files + reopen) and every read on the real code is checked for completeness and foreignness.',
+    note='Trusted: Lean kernel, Model/Atomic.lean (tied by h_atomic), the reading of DiskCache::put/get as lock{prepare};write;lock{commit} (src/cache/disk.rs); process crash only, no power loss.',
+    ref='DESIGN.md section 4 C06, Appendix A.5, B.2'),
 }
 NA_REASON = 'not yet wired into ./check in this round (model and theorems exist under lean/; see DESIGN.md section 0.1)'
 def hooks():
